@@ -79,7 +79,7 @@ class RdfBuilder:
 
     def name(self):
         r = self.g.rng
-        return QualifiedName(r.choice(self.nss), r.choice(["e", "a", "ag", "x"]) + str(r.randint(0, 4)))
+        return QualifiedName(r.choice(self.nss), r.choice(["e", "a", "ag", "x", "e", "a", "ag", "x", "r%20v"]) + str(r.randint(0, 4)))   # (a percent-escape is part of the name)
 
     def name_of_kind(self, kind):
         for _ in range(20):
@@ -246,16 +246,18 @@ def collapse_clashes(ck, rec_json, clashes):
 
 
 def assoc_hazard_activities(doc):
-    """activities (per container) that carry both a plain anonymous wasAssociatedWith and an anonymous one that needs a qualified node"""
+    """activities (per container) that carry both a plain anonymous wasAssociatedWith and one that is written with a qualified node"""
     out = set()
     conts = [doc] + (list(doc.bundles) if doc.is_document() else [])
     for c in conts:
         plain, qual = set(), set()
         for r in c.get_records():
-            if r.get_type() == PROV["Association"] and r.identifier is None:
+            if r.get_type() == PROV["Association"]:
                 fa = r.formal_attributes
                 act = fa[0][1]
-                needs_node = any(v is not None for (_a, v) in fa[2:]) or len(r.extra_attributes) > 0
+                # written with a qualified node: an identifier, a plan or attributes (the reader diverts every direct triple of
+                # the activity into the qualified node it met last, whether that node is a blank node or the identifier)
+                needs_node = r.identifier is not None or any(v is not None for (_a, v) in fa[2:]) or len(r.extra_attributes) > 0
                 (qual if needs_node else plain).add(act.uri if act is not None else None)
         out |= (plain & qual)
     return out
@@ -274,7 +276,7 @@ def classify(doc, lost, gained, scenario):
         if len(ids) == 1 and {x["kind"] for x in rest} <= {"Entity", "Agent"}:
             return scenario
     hazard = assoc_hazard_activities(doc)
-    if hazard and {x["kind"] for x in rest} == {"Association"} and all(x["id"] is None for x in rest):
+    if hazard and {x["kind"] for x in rest} == {"Association"}:
         acts = {v[1] for x in rest for (k, v) in x["attrs"] if k.endswith("#activity")}
         if acts <= hazard:
             return KNOWN["plain-and-qualified-same-subject"]
